@@ -187,6 +187,12 @@ def install_hooks(ex, cx):
         st.assume(*c.axioms(pos, rho, N))
         ok, res, np = c.outcome(pos, rho)
         st.assume(reach(np))
+        extra = getattr(cx, 'child_value_axioms', {}).get(k)
+        if extra is not None:
+            st.assume(Implies(ok, And(*extra(ex, c, pos, rho))))       # typing of the child's value (part of ITS contract)
+        hook = getattr(cx, 'after_child', None)
+        if hook is not None:
+            hook(ex, st, k, pos, rho, ok, np)
         st.trace.append(f'child{k}')
         st.ghost.setdefault('calls', []).append((k, pos, rho))
         return Tup([ok, res, np])
